@@ -144,6 +144,7 @@ class Engine(object):
         self.raises = set(raises)                # exception classes the contract declares
         self.loops = loops or {}
         self.bv = bv
+        ops.BV_MODE[0] = bv
         self.modular = set(modular)
         self.externals = externals or {}
         self.pure = pure                         # spec evaluation: no obligations, total operators
